@@ -29,6 +29,9 @@ pub struct Accounting {
     pub txn_freed_data: Vec<Page>,
     pub txn_freed_system: Vec<Page>,
     pub needs_repair: bool,
+    /// per region: highest free order of its allocator, and for each order whether the region
+    /// tracker has the region marked full
+    pub region_tracker: Vec<(Option<u8>, Vec<bool>)>,
 }
 
 #[derive(Debug, Default, Clone)]
@@ -84,5 +87,72 @@ pub fn point(name: &str, fields: &[(&str, u64)]) {
     let hook = HOOK.read().unwrap().clone();
     if let Some(hook) = hook {
         hook(name, fields);
+    }
+}
+
+/// Thin public wrapper over one region's buddy allocator, for the allocator checks
+pub struct BuddyHandle {
+    inner: crate::tree_store::verif_export::BuddyAllocator,
+}
+
+impl BuddyHandle {
+    pub fn new(num_pages: u32, max_page_capacity: u32) -> Self {
+        Self {
+            inner: crate::tree_store::verif_export::BuddyAllocator::new(
+                num_pages,
+                max_page_capacity,
+            ),
+        }
+    }
+
+    pub fn alloc(&mut self, order: u8) -> Option<u32> {
+        self.inner.alloc(order)
+    }
+
+    pub fn alloc_lowest(&mut self, order: u8) -> Option<u32> {
+        self.inner.alloc_lowest(order)
+    }
+
+    pub fn free(&mut self, page: u32, order: u8) -> u8 {
+        self.inner.free(page, order)
+    }
+
+    pub fn record_alloc(&mut self, page: u32, order: u8) -> bool {
+        self.inner.record_alloc(page, order)
+    }
+
+    pub fn resize(&mut self, new_size: u32) {
+        self.inner.resize(new_size);
+    }
+
+    pub fn len(&self) -> u32 {
+        self.inner.len()
+    }
+
+    pub fn max_order(&self) -> u8 {
+        self.inner.get_max_order()
+    }
+
+    pub fn highest_free_order(&self) -> Option<u8> {
+        self.inner.highest_free_order()
+    }
+
+    pub fn count_free_pages(&self) -> u32 {
+        self.inner.count_free_pages()
+    }
+
+    pub fn trailing_free_pages(&self) -> u32 {
+        self.inner.trailing_free_pages()
+    }
+
+    /// serialize and deserialize
+    pub fn roundtrip(&mut self) {
+        let bytes = self.inner.to_vec();
+        self.inner = crate::tree_store::verif_export::BuddyAllocator::from_bytes(&bytes);
+    }
+
+    /// the recorded free blocks as (index at that order, order)
+    pub fn free_blocks(&self) -> Vec<(u32, u8)> {
+        self.inner.verif_free_blocks()
     }
 }
